@@ -814,6 +814,11 @@ package rewriter
 
 //@ pred IsGenericFuncObj(o types.Object) := IsSignature(funcType(ptr(o))) && tplLen(sigTParams(ptr(funcType(ptr(o))))) > 0
 
+//@ func mentionsParam(ctx, lit, expr) (found)
+//@   trusted      -- ast.Inspect traversal with a closure (external); decides the abstract CalleeMentionsParam for the literal's callee expression
+//@   requires EtaShape(lit) && expr == as(as(lit.Body.List[0], ReturnStmt).Results[0], CallExpr).Fun
+//@   ensures found == CalleeMentionsParam(lit)
+
 //@ func stableCallee(ctx, lit) (ok)
 //@   requires EtaShape(lit)      -- guaranteed by the matcher pattern the callback is registered for (assumed contract of go-matcher)
 //@   ensures[declared-func] ok ==> IsDeclaredFunc(calleeOf(as(as(lit.Body.List[0], ReturnStmt).Results[0], CallExpr)))
@@ -823,6 +828,8 @@ package rewriter
 //@        || isa(as(as(lit.Body.List[0], ReturnStmt).Results[0], CallExpr).Fun, IndexListExpr)
 //@   -- D6 (method value): f in `func() T { return s.m() }` -> `s.m` binds the receiver when the closure is created, not when it is called
 //@   ensures[stable-receiver] ok ==> !BindsReceiverEarly(as(as(lit.Body.List[0], ReturnStmt).Results[0], CallExpr).Fun)
+//@   -- D24: f in `func(x T) R { return x.m(x) }` depends on the literal's own parameter: `x.m` outside the literal does not even compile
+//@   ensures[closed-callee] ok ==> !CalleeMentionsParam(lit)
 //@   ensures[same-type] ok ==> TypesIdentical(typeOfExpr(lit), typeOfExpr(as(as(lit.Body.List[0], ReturnStmt).Results[0], CallExpr).Fun))
 
 //@ extern (*types.object).Type(f) (t)
